@@ -26,8 +26,8 @@ EXPLANATION = (
     "route prefix.")
 OUTSIDE = ["argument parsing, aiohttp's router / web.run_app wiring, mDNS",
            "the xandikos.wsgi module's environment-variable configuration"]
-ASSUMPTIONS = ["A1, A2, A3, A7", "principal path = '/' + <= 2 segments over the alphabet {a, b, é, ' '}, with or "
-               "without trailing slash"]
+ASSUMPTIONS = ["A1, A2, A3, A7", "principal path = '/' + 1..2 segments from the menu SEGMENU (plain, with blank, "
+               "non-ASCII, dotted, plus, hash; '%' is excluded: --current-user-principal is a %-format template), with or without trailing slash - chosen by the solver"]
 
 ALPHA = "abé "
 PREFIXES = ["/", "/dav/", "/a/b/"]
@@ -57,13 +57,10 @@ def _boot_fn():
     return ns["boot"]
 
 
-_BOOT = None
+_BOOT = _boot_fn()  # at import time: outside CrossHair's tracing
 
 
 def boot(principal, autocreate, defaults):
-    global _BOOT
-    if _BOOT is None:
-        _BOOT = _boot_fn()
     Wb.open_store_from_path.cache_clear()
     return _BOOT(mweb.ROOT, principal, autocreate=autocreate, defaults=defaults)
 
@@ -135,11 +132,12 @@ def discover(app, prefix, wsgi):
     return found[CHS], found[AHS]
 
 
-def body_discovery(s1, s2, nseg, slash, restarts):
+SEGMENU = ["a", "u s", "é", "user", "b.c", "a+b", "x#y"]
+
+
+def body_discovery(i1, i2, nseg, slash, restarts):
     prefix, wsgi, mode = ctx.PART  # mode: "defaults" | "autocreate"
-    segs = [s1, s2][:nseg]
-    if not all(seg_ok(s) for s in segs) or any(s in ("calendars", "contacts") for s in segs):
-        return (True, "pre-invalid")
+    segs = [SEGMENU[i1], SEGMENU[i2]][:nseg]
     principal = "/" + "/".join(segs) + ("/" if slash and segs else "")
     if nseg == 0:
         return (True, "pre-invalid")
@@ -178,12 +176,12 @@ def body_discovery(s1, s2, nseg, slash, restarts):
     return (ok, mode + ":restarts%d" % restarts)
 
 
-def h_discovery(s1: str, s2: str, nseg: int, slash: bool, restarts: int) -> bool:
+def h_discovery(i1: int, i2: int, nseg: int, slash: bool, restarts: int) -> bool:
     """
-    pre: len(s1) <= ctx.b.slen and len(s2) <= ctx.b.slen and 0 <= nseg <= 2 and 0 <= restarts <= ctx.b.restarts
+    pre: 0 <= i1 < len(SEGMENU) and 0 <= i2 < len(SEGMENU) and 1 <= nseg <= 2 and 0 <= restarts <= ctx.b.restarts
     post: _
     """
-    return run(body_discovery, s1, s2, nseg, slash, restarts)
+    return run(body_discovery, i1, i2, nseg, slash, restarts)
 
 
 def body_wellknown(which, sn_in_script):
